@@ -188,6 +188,24 @@ func init() {
 	//   | hs fail why <querytype|version|fragsize|other> ex <n> hsex <n> | hs nonterm ex <n> | hs panic <site>
 	register("c11", func(a []Tok) []Tok {
 		sc := &fakeServerComm{}
+		testDomain := testDomain
+		if len(a) > 5 && a[5].I > 0 {
+			// c11 ... <seed> <domain length>: a tunnel domain of that many characters (labels of up to 25), e.g. one so long that the
+			// longer test patterns of the negotiation no longer fit into a name
+			lab := "abcdefghijklmnopqrstuvwxy"
+			d := ""
+			for len(d) < int(a[5].I) {
+				k := int(a[5].I) - len(d)
+				if k > len(lab) {
+					k = len(lab)
+				}
+				d += lab[:k]
+				if len(d) < int(a[5].I)-1 {
+					d += "."
+				}
+			}
+			testDomain = strings.TrimSuffix(d, ".")
+		}
 		srv := sadns.NewServerDnsListener(testDomain, sc)
 		defer sc.Close()
 		lim := int(a[3].I)
